@@ -42,7 +42,7 @@ impl AtomicOp for Op {
 
     fn dgr(self) -> AtomicOpDispatch {
         AtomicOpDispatch::RZZ(Self {
-            phase: -self.phase,
+            phase: self.phase.conj(),
             ..self
         })
     }
